@@ -24,6 +24,7 @@ Directives (one per line, starting with `//@`):
 Everything else is raw Verus text and is emitted unchanged.
 """
 import hashlib
+import os
 import re
 from . import rewrite as rw
 from .extract import find_item, match_close, ExtractError, norm
@@ -51,6 +52,7 @@ class ItemSpec:
         self.prefix = ""
         self.noprobe = False
         self.tags = None
+        self.region = None  # dict(from=(kind,anchor), to=(kind,anchor), sig=str, epilogue=str)
 
 
 class Unit:
@@ -96,6 +98,11 @@ class Unit:
                     self.config += rest.split()
                 elif word == "gsubst":
                     self.gsubsts.append(self._parse_subst(rest, ln))
+                elif word == "include":
+                    inc = os.path.join(os.path.dirname(self.path), rest)
+                    with open(inc) as f2:
+                        raw.append("// vx-include %s" % rest)
+                        raw.append(f2.read())
                 elif word == "extract":
                     if raw:
                         self.parts.append(("raw", "\n".join(raw)))
@@ -120,6 +127,24 @@ class Unit:
                 cur_splice = None
             elif word == "ret":
                 cur.ret = rest
+            elif word in ("from", "from-after", "to", "to-before", "block"):
+                m = _bt.search(rest)
+                if not m:
+                    raise UnitError("%s:%d: anchor needs backticks" % (self.path, ln))
+                cur.region = cur.region or {}
+                nth = 0
+                m2 = re.search(r"#(\d+)\s*$", rest[m.end():])
+                if m2:
+                    nth = int(m2.group(1))
+                cur.region["from" if word.startswith("from") or word == "block" else "to"] = (word, m.group(1), nth)
+            elif word == "sig":
+                m = _bt.search(rest)
+                cur.region = cur.region or {}
+                cur.region["sig"] = m.group(1)
+            elif word == "epilogue":
+                m = _bt.search(rest)
+                cur.region = cur.region or {}
+                cur.region["epilogue"] = m.group(1)
             elif word in ("subst", "optsubst"):
                 a, b, why = self._parse_subst(rest, ln)
                 cur.substs.append((a, b, why, word == "subst"))
@@ -177,43 +202,80 @@ class Unit:
                 out.append(part)
                 continue
             spec = part
-            it = find_item(repo, spec.path, spec.kind, spec.name, spec.container)
-            text = it.text
             log = {}
+            if spec.kind == "region":
+                it = find_item(repo, spec.path, "fn", spec.name, spec.container)
+                text = self._lift_region(it.text, spec, log)
+            else:
+                it = find_item(repo, spec.path, spec.kind, spec.name, spec.container)
+                text = it.text
             text = rw.r10_decoration(text, log)
             text = rw.r1_async(text, log)
             text = rw.r3_logs(text, log)
             text = rw.r2_asserts(text, log)
             text = rw.r6_config(text, set(self.config), log)
             for r in spec.rules:
-                if r == "R4a":
-                    text = rw.r4a_enumerate(text, log)
-                elif r == "R4c":
-                    text = rw.r4c_rangefrom(text, log)
-                elif r == "R5":
-                    text = rw.r5_refpattern(text, log)
-                elif r == "R14":
-                    text = rw.r14_mut_self(text, log)
-                else:
+                fn = all_rules().get(r)
+                if fn is None:
                     raise UnitError("unknown rule %s" % r)
+                text = fn(text, log)
             for a, b, why in self.gsubsts:
                 text = rw.subst(text, a, b, log, must=False)
             for a, b, why, must in spec.substs:
                 text = rw.subst(text, a, b, log, must=must)
-            if spec.ret and spec.kind == "fn":
+            if spec.ret and spec.kind in ("fn",):
                 text = rw.r13_name_ret(text, spec.ret, log)
             sid_base = "%s/%s" % (self.name, (spec.container + "::" if spec.container else "") + spec.name)
             n_probe = 0
-            if spec.kind == "fn":
+            if spec.kind == "region":
+                sid_base = "%s/%s" % (self.name, (spec.container + "::" if spec.container else "") + spec.name + "#" + spec.region.get("name", "region"))
+            if spec.kind in ("fn", "region"):
                 text, n_probe = self._splice_fn(text, spec, sid_base, info, probe and not spec.noprobe)
             a, b = it.line_span()
             sha = hashlib.sha256(it.text.encode()).hexdigest()[:16]
             header = "// vx-item %s @ %s:%d-%d sha256=%s rules=[%s]\n" % (sid_base, spec.path, a, b, sha, "; ".join("%s x%d" % kv for kv in sorted(log.items())))
             out.append(header + text + "\n// vx-end")
-            info["items"].append({"id": sid_base, "kind": spec.kind, "path": spec.path, "lines": [a, b], "sha256": sha, "rules": log,
+            info["items"].append({"id": sid_base, "kind": "fn" if spec.kind == "region" else spec.kind, "region": spec.kind == "region", "path": spec.path, "lines": [a, b], "sha256": sha, "rules": log,
                                   "has_contract": any(s[0] == "contract" for s in spec.splices), "probes": n_probe,
                                   "substs": [{"from": x[0], "to": x[1], "why": x[2]} for x in spec.substs]})
         return "\n".join(out) + "\n", info
+
+    def _lift_region(self, fn_text, spec, log):
+        """R8: statements between two anchors of a function (or the contents of one block) become the body of a function
+        whose signature the unit supplies; the region text is untouched, the optional epilogue is the only generated text."""
+        rg = spec.region or {}
+        if "from" not in rg or "sig" not in rg:
+            raise UnitError("region %s needs from/block and sig" % spec.name)
+        st = sig(lex(fn_text))
+
+        def locate(anchor, nth):
+            pat = [t.text for t in sig(lex(anchor))]
+            hits = rw.find_seq(st, pat)
+            if (nth == 0 and len(hits) != 1) or len(hits) < max(nth, 1):
+                raise UnitError("region anchor `%s` matches %d times in %s" % (anchor, len(hits), spec.name))
+            h = hits[max(nth, 1) - 1]
+            return h, h + len(pat) - 1
+        kind, anchor, nth = rg["from"]
+        a0, a1 = locate(anchor, nth)
+        if kind == "block":
+            if st[a1].text != "{":
+                raise UnitError("block anchor must end with `{`")
+            c = match_close(st, a1)
+            start, end = st[a1].end, st[c].start
+        else:
+            start = st[a0].start if kind == "from" else st[a1].end
+            if "to" not in rg:
+                raise UnitError("region %s needs to/to-before" % spec.name)
+            kind2, anchor2, nth2 = rg["to"]
+            b0, b1 = locate(anchor2, nth2)
+            end = st[b1].end if kind2 == "to" else st[b0].start
+        if end < start:
+            raise UnitError("region %s: end before start" % spec.name)
+        body = fn_text[start:end]
+        log["R8 region-lift"] = 1
+        m = re.search(r"fn\s+([A-Za-z_0-9]+)", rg["sig"])
+        rg["name"] = m.group(1) if m else "region"
+        return "%s {\n%s\n%s\n}" % (rg["sig"], body, rg.get("epilogue", ""))
 
     def _splice_fn(self, text, spec, sid_base, info, probe):
         """all splice positions are computed on the same (rewritten) text, then applied together"""
@@ -346,3 +408,23 @@ def fuzzy_find(st, pat, lo, hi):
         return []
     dmin = min(v[0][0] for v in cands.values())
     return [v[1] for v in cands.values() if v[0][0] == dmin]
+
+
+_RULES = None
+
+
+def all_rules():
+    """catalogue rules selectable with `//@ rules`; extra rule modules live in vxlib/rules_extra/*.py (each exports RULES)"""
+    global _RULES
+    if _RULES is None:
+        _RULES = {"R4a": rw.r4a_enumerate, "R4c": rw.r4c_rangefrom, "R5": rw.r5_refpattern, "R14": rw.r14_mut_self}
+        import importlib
+        import glob as _g
+        d = os.path.join(os.path.dirname(os.path.abspath(__file__)), "rules_extra")
+        for p in sorted(_g.glob(os.path.join(d, "*.py"))):
+            name = os.path.basename(p)[:-3]
+            if name.startswith("_"):
+                continue
+            mod = importlib.import_module("vxlib.rules_extra." + name)
+            _RULES.update(getattr(mod, "RULES", {}))
+    return _RULES
